@@ -79,6 +79,10 @@ def getattr_lib(M, interp, obj, name, node):
             return obj
         if name in ('item', 'any', 'all', 'tolist'):
             return ModelMethod(obj, name)
+        if obj.dtype in ('m8', 'M8') and name in ('to_timedelta64', 'to_datetime64', 'to_numpy', 'to_pytimedelta', 'asm8'):
+            return obj if name == 'asm8' else PyCallable(lambda it, a, k, n: obj, name)
+        if obj.dtype == 'm8' and name == 'total_seconds':
+            return PyCallable(lambda it, a, k, n: (obj.value() if obj.concrete() else Sc(obj.d, 'f8')), name)
         if name == 'shape':
             return ()
         if name == 'ndim':
